@@ -67,8 +67,8 @@ type craftedCase struct {
 	rq     fga.Req
 }
 
-func this() *fga.Rewrite           { return &fga.Rewrite{Kind: "this"} }
-func cu(r string) *fga.Rewrite     { return &fga.Rewrite{Kind: "cu", Rel: r} }
+func this() *fga.Rewrite            { return &fga.Rewrite{Kind: "this"} }
+func cu(r string) *fga.Rewrite      { return &fga.Rewrite{Kind: "cu", Rel: r} }
 func ttu(ts, c string) *fga.Rewrite { return &fga.Rewrite{Kind: "ttu", Tupleset: ts, Computed: c} }
 func op(k string, kids ...*fga.Rewrite) *fga.Rewrite {
 	return &fga.Rewrite{Kind: k, Kids: kids}
